@@ -299,6 +299,26 @@ def fam_inflight(seed, dirs=("fwd", "rev"), fcs=("fc", "nofc")):
     return out
 
 
+def fam_stalled_close(seed, dirs=("fwd", "rev")):
+    """the tunnel is closed (or stopped) while a send is stalled inside the transport (bounded carrier, nobody
+    delivering): the library must end the tunnel without breaking the transport's usage contract"""
+    out = []
+    for d in dirs:
+        for cap in (1, 2):
+            for ending in (("close",) if d == "fwd" else ("close", "stop")):
+                for who in ("c", "s"):
+                    steps = copy.deepcopy(PREFIX) + [cop(1, "new", shape="bidi"), dl("c2s"), cop(9, "new", shape="bidi"), dl("c2s")]
+                    if who == "c":
+                        steps += [cop(1, "send", n=30 + k) for k in range(cap + 2)]      # the last ones stall in the carrier
+                    else:
+                        steps += [sop(1, "send", n=30 + k) for k in range(cap + 2)]
+                    steps += [{"do": ending}, {"do": "drain"}, cop(1, "recv", act="a"), cop(9, "recv", act="a"), sop(1, "recv", act="a"), sop(9, "recv", act="a")]
+                    out.append({"name": "stalled-%s-cap%d-%s-%s" % (d, cap, ending, who), "cfg": {"dir": d, "cap": cap}, "steps": steps,
+                                "rpcs": [{"rpc": 1}, {"rpc": 9}], "policy": {"kind": "eager", "seed": seed, "max": 0},
+                                "meta": {"family": "stalled-close", "done": []}})
+    return out
+
+
 def fam_indep(seed, maxk, dirs=("fwd", "rev"), policies=("eager", "lazy", "random")):
     """bystander RPCs + one disturber of each kind, every relative timing (the
     disturber is started after k steps of the bystanders' schedule)"""
@@ -1158,7 +1178,9 @@ def fam_free(seed, n, dirs=("fwd", "rev")):
             if "a" in rs["c"]:
                 rs["c"]["a"] = [op("header")] + rs["c"]["a"] + [op("trailer")]
         pol = {"kind": "free", "seed": rng.randrange(1 << 30)}
-        kind = rng.choice(["none", "none", "close", "cancel", "carfail", "shutdown", "blocked-cancel", "blocked-cancel"])
+        kind = rng.choice(["none", "none", "close", "cancel", "carfail", "shutdown", "blocked-cancel", "blocked-cancel", "stop", "stop"])
+        if kind == "stop" and d != "rev":
+            kind = "close"
         if kind == "blocked-cancel" and fc == "fc":
             # handlers blocked in SendMsg on an exhausted window (their callers never read), cancelled while blocked
             nb = rng.randint(1, 3)
